@@ -308,9 +308,22 @@ fn c16_case(r: &mut Rng, idx: u64) -> Case {
             // single video gap around 2^32 ticks
             let g = ((1i64 << 32) + eps - 1) as u64;
             let t0 = r.below(1000);
-            ops.push(Op::wv(ticks_s(t0), kf(r, cfg.vcodec), true));
-            ops.push(Op::wv(ticks_s(t0 + g), df(r, cfg.vcodec), false));
-            ops.push(Op::wv(ticks_s(t0 + g + 3000), df(r, cfg.vcodec), false));
+            match r.below(3) {
+                0 => {
+                    ops.push(Op::wv(ticks_s(t0), kf(r, cfg.vcodec), true));
+                    ops.push(Op::wv(ticks_s(t0 + g), df(r, cfg.vcodec), false));
+                    ops.push(Op::wv(ticks_s(t0 + g + 3000), df(r, cfg.vcodec), false));
+                }
+                k => {
+                    // the same decode-time gap with a composition offset on the frames around it
+                    // (k = 1: presentation after decode, k = 2: presentation before decode)
+                    let off = *r.pick(&[1u64, 3000, 90_000, 200_000]);
+                    let (p, d) = if k == 1 { (off, 0) } else { (0, off) };
+                    ops.push(Op::wvd(ticks_s(t0 + off + p), ticks_s(t0 + off + d), kf(r, cfg.vcodec), true));
+                    ops.push(Op::wvd(ticks_s(t0 + off + g + p), ticks_s(t0 + off + g + d), df(r, cfg.vcodec), false));
+                    ops.push(Op::wvd(ticks_s(t0 + off + g + 3000 + p), ticks_s(t0 + off + g + 3000 + d), df(r, cfg.vcodec), false));
+                }
+            }
         }
         1 => {
             // audio gap around 2^32 ticks
@@ -762,6 +775,7 @@ pub fn eval_case2(prop: &str, case: &Case, obs: &mut Obs) -> Vec<Violation> {
             match what.as_str() {
                 "ab5" | "ab3" => {
                     let alpha: &[u8] = if what == "ab5" { &mon::c14::AB5 } else { &mon::c14::AB3 };
+                    let mut all: Vec<Vec<u8>> = Vec::with_capacity((*hi - *lo) as usize);
                     for i in *lo..*hi {
                         let s = mon::c14::nth_string(alpha, i);
                         let vs = mon::c14::check_bytes(&s, obs);
@@ -769,7 +783,9 @@ pub fn eval_case2(prop: &str, case: &Case, obs: &mut Obs) -> Vec<Violation> {
                             obs.nontrivial(crate::util::mix(crate::util::fnv(&s), s.len() as u64));
                         }
                         add(vs, &mut out);
+                        all.push(s);
                     }
+                    add(mon::c14::check_via_muxer(&all, obs), &mut out);
                     obs.count(&format!("enumerated:{}", what), hi - lo);
                     if *lo == 0 {
                         obs.sample(format!("all strings #{}..#{} over {:02x?} in shortlex order, e.g. {:02x?}", lo, hi, alpha, mon::c14::nth_string(alpha, hi - 1)));
@@ -777,11 +793,25 @@ pub fn eval_case2(prop: &str, case: &Case, obs: &mut Obs) -> Vec<Violation> {
                 }
                 _ => {
                     let mut r = Rng::new(crate::util::mix(0xC14, *lo));
+                    let mut all: Vec<Vec<u8>> = Vec::new();
                     for _ in *lo..*hi {
                         let (s, vs) = mon::c14::constructive(&mut r, obs);
                         obs.nontrivial(crate::util::fnv(&s));
                         add(vs, &mut out);
+                        // variants no encoder emits: a leading 4-byte size header equal to the rest
+                        // of the buffer, and the same units already length-prefixed (no start code)
+                        if r.chance(1, 4) && s.len() < (1 << 20) {
+                            let mut t = (s.len() as u32).to_be_bytes().to_vec();
+                            t.extend_from_slice(&s);
+                            all.push(t);
+                            all.push(crate::model::basic::to_length_prefixed(&s));
+                        }
+                        all.push(s);
                     }
+                    for t in &all {
+                        add(mon::c14::check_bytes(t, obs), &mut out);
+                    }
+                    add(mon::c14::check_via_muxer(&all, obs), &mut out);
                 }
             }
             out
